@@ -13,6 +13,13 @@ Definition root_ok (R : StarRing) (n : Z) (w : R) : Prop :=
   (forall m, 0 < m < n -> sumZ n (fun k => opow w (Z.to_nat (k * m))) = zero) /\
   mul (conj w) w = one.
 
+Lemma root_ok_unfold (R : StarRing) n (w : R) :
+  root_ok R n w <->
+  (0 < n /\ opow w (Z.to_nat n) = one /\
+   (forall m, 0 < m < n -> sumZ n (fun k => opow w (Z.to_nat (k * m))) = zero) /\
+   mul (conj w) w = one).
+Proof. reflexivity. Qed.
+
 Section Gen.
   Variable R : StarRing.
   Add Ring Rr0 : (SRth R).
